@@ -31,6 +31,7 @@ Record obs := {
 
 Inductive ckind :=
 | KModel (i : input) (uncertain : list string)
+| KFault (i : input) (k : nat)          (* the k-th fallible system call of the write/cleanup phases was made to fail *)
 | KOpaque.
 
 Record case := { c_kind : ckind; c_obs : obs }.
@@ -100,8 +101,10 @@ Definition diag_norm (d : diag) : diag :=
   end.
 
 (* what the model predicts for an input (map order = insertion order, no I/O fault) *)
-Definition model_obs (i : input) : obs :=
-  let '(s, w) := run id_order no_fault i in
+Definition fail_at (k : nat) (n : nat) : bool := negb (Nat.eqb n k).
+
+Definition model_obs_io (io : nat -> bool) (i : input) : obs :=
+  let '(s, w) := run id_order io i in
   let names := changed_names (i_extra i) (w_dir w) in
   let changed := match names with [] => false | _ => true end in
   match s with
@@ -112,6 +115,8 @@ Definition model_obs (i : input) : obs :=
   | Diverge _ => {| o_exit := 124; o_diag := DOther; o_hasdiag := false; o_panic := false; o_timeout := true;
                     o_changed := changed; o_files := names |}
   end.
+
+Definition model_obs (i : input) : obs := model_obs_io no_fault i.
 
 Fixpoint list_eqb (a b : list string) : bool :=
   match a, b with
@@ -160,6 +165,7 @@ Definition verdict (c : case) : N :=
   else match c_kind c with
        | KOpaque => 0%N
        | KModel i u => if agrees i u (c_obs c) then 0%N else 1%N
+       | KFault i k => if obs_agree (model_obs_io (fail_at k) i) (c_obs c) then 0%N else 1%N
        end.
 
 Fixpoint mismatches_from (k : N) (cs : list case) : list (N * N) :=
@@ -177,6 +183,7 @@ Definition mismatches := mismatches_from 0%N.
 Definition matches_model (c : case) : N :=
   match c_kind c with
   | KModel i u => if agrees i u (c_obs c) then 0%N else 1%N
+  | KFault i k => if obs_agree (model_obs_io (fail_at k) i) (c_obs c) then 0%N else 1%N
   | KOpaque => 1%N
   end.
 
@@ -184,11 +191,11 @@ Definition matches_model (c : case) : N :=
 Definition predicted (i : input) : obs := model_obs i.
 
 (* how much of a batch lies inside the guards of the theorems:
-   (cases with a model input, of these input_ok, of these files_only extras) *)
+   (cases with a model input, of these input_ok, of these state_ok) *)
 Definition guard_counts (cs : list case) : N * N * N :=
   fold_left (fun '(a, b, c) x =>
                match c_kind x with
                | KModel i _ => (N.succ a, if input_ok i then N.succ b else b,
-                                if files_only (i_extra i) then N.succ c else c)
-               | KOpaque => (a, b, c)
+                                if state_ok i then N.succ c else c)
+               | _ => (a, b, c)
                end) cs (0%N, 0%N, 0%N).
